@@ -82,7 +82,7 @@ PROPS["C15"] = {
     "assumptions": [],
 }
 PROPS["C17"] = {
-    "rules": [lambda F, R: r_txn.rule_T1(F, R)],
+    "rules": [lambda F, R: r_txn.rule_T1(F, R), r_storage.rule_D, r_storage.rule_D6],
     "explanation": "T1 for all four mutating TaskDb actions: an action split over two storage transactions can interleave with another handle.",
     "not_decided": "the schedule-level outcome: it is SQLite's locking that serialises handles and processes",
     "assumptions": ["SQLite's transaction isolation"],
